@@ -24,20 +24,21 @@ import (
 
 // exit paths of one session
 const (
-	pathNoOffer       = iota // the broker's poll response is malformed: no offer
-	pathRejectedURL          // the offer comes with a relay URL outside the proxy's pattern
-	pathBadOffer             // the offer is not a session description
-	pathPCError              // the peer connection cannot be made
-	pathAnswerGone           // the broker says "client gone" to the answer
-	pathAnswerError          // the answer request fails at the transport
-	pathNeverOpens           // the client never opens the data channel (20 s timeout)
-	pathRelayDown            // the data channel opens, the relay cannot be reached
-	pathNormal               // the data channel opens, traffic flows, the session ends after 30 s
-	pathOpenAtTimeout        // the data channel opens exactly when the 20 s timeout fires
+	pathNoOffer         = iota // the broker's poll response is malformed: no offer
+	pathRejectedURL            // the offer comes with a relay URL outside the proxy's pattern
+	pathBadOffer               // the offer is not a session description
+	pathPCError                // the peer connection cannot be made
+	pathAnswerGone             // the broker says "client gone" to the answer
+	pathAnswerError            // the answer request fails at the transport
+	pathNeverOpens             // the client never opens the data channel (20 s timeout)
+	pathRelayDown              // the data channel opens, the relay cannot be reached
+	pathNormal                 // the data channel opens, traffic flows, the session ends after 30 s
+	pathOpenAtTimeout          // the data channel opens exactly when the 20 s timeout fires
+	pathAnswerLostOpens        // the broker passes the answer on but its response to the proxy is lost (transport error after 5 s); the client has opened the data channel meanwhile
 	nPaths
 )
 
-var pathName = []string{"no-offer", "rejected-relay-url", "undecodable-offer", "peerconnection-error", "answer-client-gone", "answer-transport-error", "datachannel-never-opens", "relay-unreachable", "normal-end", "open-at-timeout-instant"}
+var pathName = []string{"no-offer", "rejected-relay-url", "undecodable-offer", "peerconnection-error", "answer-client-gone", "answer-transport-error", "datachannel-never-opens", "relay-unreachable", "normal-end", "open-at-timeout-instant", "answer-response-lost-client-connects"}
 
 type pollRec struct {
 	clients int
@@ -121,6 +122,10 @@ func (s scriptedBroker) RoundTrip(req *http.Request) (*http.Response, error) {
 		if i < len(w.script) && w.script[i] == pathAnswerError {
 			return nil, errors.New("connection reset by peer")
 		}
+		if i < len(w.script) && w.script[i] == pathAnswerLostOpens {
+			time.Sleep(5 * time.Second)
+			return nil, errors.New("net/http: timeout awaiting response headers")
+		}
 		ok := !(i < len(w.script) && w.script[i] == pathAnswerGone)
 		b, _ := messages.EncodeAnswerResponse(ok)
 		return reply(200, b)
@@ -150,7 +155,7 @@ func (w *proxyWorld) seamPC(sf *SnowflakeProxy, sdp *webrtc.SessionDescription, 
 		}()
 	}
 	switch path {
-	case pathRelayDown, pathNormal:
+	case pathRelayDown, pathNormal, pathAnswerLostOpens:
 		go func() {
 			time.Sleep(time.Second)
 			open()
